@@ -286,7 +286,7 @@ pub(super) fn affected<'a, 'b, F, O>(
 ) -> impl FnMut(TokenStream<'a>) -> IResult<'a, O> + 'b
 where
     F: InnerParser<'a, O> + 'b,
-    O: Parser + ToRange + AstInfoTraverser + Clone,
+    O: Parser + ToRange + AstInfoTraverser + crate::ErrorContainer + Clone,
 {
     /// True if part of the tokens, that this node pointed to,
     /// were already consumed by previous parsers.
@@ -338,7 +338,13 @@ where
             }
             // TODO: maybe dynamic affection range
             let affected_range = this_range.start..(this_range.end + 1);
-            if input.token_change.overlaps(&affected_range) {
+            // The error recovery ignores tokens until it finds something it knows.
+            // So the extent of a node with a syntax error may depend on any of the following tokens.
+            let has_syntax_error = this
+                .errors()
+                .iter()
+                .any(|err| matches!(err.1, ErrorMessage::ParseErrorMessage(_)));
+            if has_syntax_error || input.token_change.overlaps(&affected_range) {
                 // If this node cannot be rebuilt, the caller has to try again at its first token,
                 // not at the token where the inner parser gave up.
                 let original_input = input.clone();
